@@ -6,6 +6,7 @@ package cli
 import (
 	"flag"
 	"os"
+	"runtime/debug"
 	"testing"
 	"time"
 )
@@ -81,4 +82,55 @@ func TestD7LoneDashStopsScan(t *testing.T) {
 	if ran {
 		t.Fatalf("spec `-f X` accepted `- -f` (positional before the option)")
 	}
+}
+
+// D6 (open, C06): an environment list with an invalid element wipes the declared default of a multi-valued option
+func TestD6InvalidEnvListWipesDefault(t *testing.T) {
+	os.Setenv("VERIF_D6_IV", "1,x")
+	defer os.Unsetenv("VERIF_D6_IV")
+	var got *[]int
+	ran, err, _ := runApp(t, func(app *Cli) {
+		got = app.Ints(IntsOpt{Name: "i", Value: []int{7, 8}, EnvVar: "VERIF_D6_IV"})
+	}, []string{})
+	if !ran || err != nil {
+		t.Fatalf("ran=%v err=%v", ran, err)
+	}
+	if len(*got) != 2 || (*got)[0] != 7 || (*got)[1] != 8 {
+		t.Fatalf("IntsOpt{Value:[7 8]} with $IV=1,x: got %v, want the default [7 8]", *got)
+	}
+}
+
+func TestD6InvalidEnvListWipesDefaultFloats(t *testing.T) {
+	os.Setenv("VERIF_D6_FV", "1.5,zz")
+	defer os.Unsetenv("VERIF_D6_FV")
+	var got *[]float64
+	ran, err, _ := runApp(t, func(app *Cli) {
+		got = app.Floats64(Floats64Opt{Name: "f", Value: []float64{2.5}, EnvVar: "VERIF_D6_FV"})
+	}, []string{})
+	if !ran || err != nil {
+		t.Fatalf("ran=%v err=%v", ran, err)
+	}
+	if len(*got) != 1 || (*got)[0] != 2.5 {
+		t.Fatalf("Floats64Opt{Value:[2.5]} with $FV=1.5,zz: got %v, want the default [2.5]", *got)
+	}
+}
+
+// D4 (open, C03): unbounded recursion in fsm.apply on a cycle of non-consuming transitions.
+// The stack is capped so that the divergence is a quick fatal error of the test binary (the test then counts as failed).
+func TestD4EnvBackedRepetitionDiverges(t *testing.T) {
+	debug.SetMaxStack(32 << 20)
+	os.Setenv("VERIF_D4_E", "z")
+	defer os.Unsetenv("VERIF_D4_E")
+	runApp(t, func(app *Cli) {
+		app.Spec = "[-e...] X"
+		app.Strings(StringsOpt{Name: "e", EnvVar: "VERIF_D4_E"})
+		app.StringArg("X", "", "")
+	}, []string{"x"})
+}
+
+func TestD4OptsEndRepetitionDiverges(t *testing.T) {
+	debug.SetMaxStack(32 << 20)
+	runApp(t, func(app *Cli) {
+		app.Spec = "[-- ]..."
+	}, []string{"x"})
 }
